@@ -26,7 +26,7 @@ def run(ctx):
     # strings and keys "after unescaping": the copy decoder writes exactly REF-STR's bytes and agrees with the validate-only
     # decoder that decided acceptance (E1: S1-S4, shared with C04)
     from .. import lemma_sets_e1
-    lemma_sets_e1.string_lemmas(ctx, ctx.tier)
+    lemma_sets_e1.string_lemmas(ctx, "quick")      # the deeper runs (3 decoder iterations) are C04's thorough tier
     ctx.assume("tapes are produced by the shape generator harness/zz_verif_tape.go (complete for the README tape grammar "
                "within the size bound; NOP runs as written by DeleteElems/SetNull)")
     run_lemmas(ctx, multi_root_lemmas(ctx.tier) + t1_lemmas(ctx.tier))
